@@ -3255,3 +3255,177 @@ def c10_marginalize(ns, over, via_filter=False):
         out.append(prove_eq(oid + '.total-conserved', list(paths[0].pc), tot, sum(f0.values(), z3.RealVal(0)), fn))
         return out
     return go()
+
+
+def c13_fst(ns):
+    """Spectrum.Fst for sample sizes ns (every entry symbolic): Weir & Cockerham (1984) with random mating (b = 0), weighted over loci (eq. 10):
+         Fst = sum_idx f[idx] a(idx) / sum_idx f[idx] (a(idx) + d(idx)),   with for r populations, p_i = idx_i/n_i,
+         nbar = mean(n), nc = (sum n - sum n^2/sum n)/(r-1), pbar = sum n_i p_i / sum n   (sample-size weighted!),
+         s2 = sum n_i (p_i - pbar)^2 / ((r-1) nbar),  h = pbar(1-pbar) - (r-1)/r s2,
+         a = nbar/nc (s2 - h/(2 nbar - 1)),  d = 2 nbar/(2 nbar - 1) h.
+    The coefficient arrays depend only on ns, so they are exact rationals here; _counts_per_entry is executed (numpy.indices / transpose by model)."""
+    ns = tuple(ns)
+    oid = 'C13/Spectrum_mod.py:Spectrum.Fst/ns' + '_'.join(map(str, ns))
+    fn = 'dadi/Spectrum_mod.py::Spectrum.Fst'
+
+    @guarded(oid, fn)
+    def go():
+        shape = tuple(k + 1 for k in ns)
+        r = len(ns)
+        f0 = {i: z3.Real('f' + '_'.join(map(str, i))) for i in itertools.product(*[range(s) for s in shape])}
+        data = _nd_build(shape, lambda i: f0[i])
+
+        def gh(ex_, obj, name, ctx):
+            if obj is data:
+                if name == 'sample_sizes':
+                    return VList(list(ns), 'ndarray')
+                if name == 'Npop':
+                    return r
+            return NotImplemented
+        ex = Executor(getattr_hook=gh)
+        fr = ex.func('dadi/Spectrum_mod.py', 'Spectrum.Fst')
+        paths = ex.run(fr, [data], {})
+        if len(paths) != 1 or paths[0].outcome != 'return':
+            return [struct(oid, False, 'expected one returning path: %r' % paths[:2], fn, undecided=True)]
+        F = Fraction
+        nbar, nsum = F(sum(ns), r), sum(ns)
+        nc = (nsum - F(sum(k * k for k in ns), nsum)) / (r - 1)
+        num, den = z3.RealVal(0), z3.RealVal(0)
+        for idx in f0:
+            p = [F(i, k) for i, k in zip(idx, ns)]
+            pbar = sum(k * pi for k, pi in zip(ns, p)) / nsum
+            s2 = sum(k * (pi - pbar) ** 2 for k, pi in zip(ns, p)) / ((r - 1) * nbar)
+            h = pbar * (1 - pbar) - F(r - 1, r) * s2
+            a = nbar / nc * (s2 - h / (2 * nbar - 1))
+            d = 2 * nbar / (2 * nbar - 1) * h
+            q = lambda v: z3.Q(v.numerator, v.denominator)
+            num = num + f0[idx] * q(a)
+            den = den + f0[idx] * q(a + d)
+        return [prove_eq(oid, list(paths[0].pc) + [den != 0], paths[0].value, num / den, fn)]
+    return go()
+
+
+def c16_admix_phi(K):
+    """Demes._admix_phi(phi, xx, proportions, pop_ids, sources, dest) with K contemporaneous demes: the pulse applied is the PhiManip function for
+    K populations *into the destination's axis*, and each non-destination axis receives the proportion listed for that deme -- wherever it stands
+    in `sources` -- or 0 if it is not a source; every grid is xx.  All source orders of 1 and 2 (K >= 3: also all K-1) sources are enumerated."""
+    oid = 'C16/Demes.py:_admix_phi/%dD' % K
+    fn = 'dadi/Demes/Demes.py::_admix_phi'
+
+    @guarded(oid, fn)
+    def go():
+        out = []
+        pops = ['d%d' % i for i in range(K)]
+        names = {2: ['phi_2D_admix_2_into_1', 'phi_2D_admix_1_into_2'],
+                 3: ['phi_3D_admix_2_and_3_into_1', 'phi_3D_admix_1_and_3_into_2', 'phi_3D_admix_1_and_2_into_3'],
+                 4: ['phi_4D_admix_into_%d' % (i + 1) for i in range(4)], 5: ['phi_5D_admix_into_%d' % (i + 1) for i in range(5)]}[K]
+        for dest in range(K):
+            others = [i for i in range(K) if i != dest]
+            sizes = sorted({1, min(2, K - 1), K - 1})
+            for sz in sizes:
+                for srcs in itertools.permutations(others, sz):
+                    if K == 5 and sz == K - 1 and srcs not in (tuple(others), tuple(reversed(others)), tuple(others[1:] + others[:1])):
+                        continue
+                    props = [z3.Real('prop_%s' % pops[s]) for s in srcs]
+                    calls = []
+
+                    def ah(ex_, fref, a, kw, ctx):
+                        nm = fref.qualname if isinstance(fref, FuncRef) else vrepr(fref)
+                        if 'admix' in nm and 'phi_' in nm:
+                            calls.append((nm.split('.')[-1].rstrip(')'), list(a), dict(kw)))
+                            return None
+                        return NotImplemented
+                    ex = Executor(policy=lambda frf: 'inline' if frf.qualname in ('_admix_phi', '_make_sorted_proportions_list') else 'abstract')
+                    ex.abstract_hook = ah
+                    f = ex.func('dadi/Demes/Demes.py', '_admix_phi')
+                    phi, xx = Tm('phi'), Tm('xx')
+                    single = sz == 1
+                    paths = ex.run(f, [phi, xx, props[0] if single else VList(list(props)), VList(list(pops)), pops[srcs[0]] if single else VList([pops[s] for s in srcs]), pops[dest]], {})
+                    tag = '%s.into%d.from%s' % (oid, dest, '_'.join(map(str, srcs)))
+                    if len(paths) != 1 or paths[0].outcome != 'return' or len(calls) != 1:
+                        out.append(struct(tag, False, 'expected one returning path with one pulse call: %r calls=%s' % (paths[:2], [c[0] for c in calls]), fn, undecided=True))
+                        continue
+                    nm, a, kw = calls[0]
+                    ok_fn = names[dest] in nm
+                    out.append(struct(tag + '.pulse', ok_fn and paths[0].value is phi and a and a[0] is phi, 'applies %s in place (got %s)' % (names[dest], nm), fn))
+                    want = [(props[srcs.index(i)] if i in srcs else z3.RealVal(0)) for i in others]
+                    if K == 2:
+                        want = [props[0]]
+                    got = a[1:1 + len(want)]
+                    grids_ok = len(a) == 1 + len(want) + K and all(x is xx for x in a[1 + len(want):]) and not kw
+                    out.append(struct(tag + '.grids', bool(grids_ok), 'every grid argument is xx', fn))
+                    for pos, (g, w) in enumerate(zip(got, want)):
+                        out.append(prove_eq('%s.proportion%d' % (tag, pos + 1), list(paths[0].pc), g, w, fn, finding_key='C16/_admix_phi/proportions'))
+        return out
+    return go()
+
+
+def c16_new_pop_events(K):
+    """Demes._split_phi and _admix_new_pop_phi with K existing demes (K = 1..4 / 2..4): the PhiManip constructor for K -> K+1 populations is called
+    with the new labels, every grid xx, and -- for K >= 3 -- the mixing proportions in axis order (last one implied): a split gives the parent 1 and
+    the others 0; an admixture/merge gives each listed parent its proportion wherever it stands in `parents`, 0 to the others.  K = 2 splits pick
+    phi_2D_to_3D_split_<parent axis>; K = 2 admixture passes the first axis's proportion."""
+    oid = 'C16/Demes.py:new-population-events/%dD' % K
+    fn = 'dadi/Demes/Demes.py::_split_phi'
+
+    @guarded(oid, fn)
+    def go():
+        out = []
+        pops = ['d%d' % i for i in range(K)]
+        newids = Tm('new_pop_ids')
+        ctor = {1: 'phi_1D_to_2D', 3: 'phi_3D_to_4D', 4: 'phi_4D_to_5D'}
+
+        def run(fname, args):
+            calls = []
+
+            def ah(ex_, fref, a, kw, ctx):
+                nm = fref.qualname if isinstance(fref, FuncRef) else vrepr(fref)
+                if 'phi_' in nm and '_to_' in nm:
+                    calls.append((nm.split('.')[-1].rstrip(')'), list(a), dict(kw)))
+                    return Tm('newphi')
+                return NotImplemented
+            ex = Executor(policy=lambda frf: 'inline' if frf.qualname in (fname, '_make_sorted_proportions_list') else 'abstract')
+            ex.abstract_hook = ah
+            f = ex.func('dadi/Demes/Demes.py', fname)
+            return ex.run(f, args, {}), calls
+        phi, xx = Tm('phi'), Tm('xx')
+        for parent in range(K):
+            paths, calls = run('_split_phi', [phi, xx, VList(list(pops)), pops[parent], newids])
+            tag = '%s.split.parent%d' % (oid, parent)
+            if len(paths) != 1 or paths[0].outcome != 'return' or len(calls) != 1:
+                out.append(struct(tag, False, 'expected one returning path with one constructor call: %r %s' % (paths[:2], [c[0] for c in calls]), fn, undecided=True))
+                continue
+            nm, a, kw = calls[0]
+            want_nm = 'phi_2D_to_3D_split_%d' % (parent + 1) if K == 2 else ctor[K]
+            ok = want_nm in nm and kw.get('deme_ids') is newids and isinstance(paths[0].value, Tm) and paths[0].value.op == 'newphi'
+            out.append(struct(tag + '.constructor', bool(ok), '%s(..., deme_ids=new_pop_ids) (got %s)' % (want_nm, nm), fn))
+            if K in (1, 2):
+                okg = [x for x in a if x is xx] == [xx] and any(x is phi for x in a)
+                out.append(struct(tag + '.arguments', bool(okg), '(xx, phi)', fn))
+            else:
+                props = a[1:K]
+                okg = a[0] is phi and len(a) == 1 + (K - 1) + (K + 1) and all(x is xx for x in a[K:])
+                out.append(struct(tag + '.grids', bool(okg), 'phi, proportions, then K+1 grids xx', fn))
+                for pos in range(K - 1):
+                    out.append(prove_eq('%s.proportion%d' % (tag, pos + 1), list(paths[0].pc), props[pos], z3.RealVal(1 if pos == parent else 0), fn))
+        if K >= 2:
+            fn2 = 'dadi/Demes/Demes.py::_admix_new_pop_phi'
+            for sz in sorted({2, K}):
+                for prs in itertools.permutations(range(K), sz):
+                    pr = [z3.Real('prop_%s' % pops[s]) for s in prs]
+                    paths, calls = run('_admix_new_pop_phi', [phi, xx, VList(list(pr)), VList(list(pops)), VList([pops[s] for s in prs]), newids])
+                    tag = '%s.admix.parents%s' % (oid, '_'.join(map(str, prs)))
+                    if len(paths) != 1 or paths[0].outcome != 'return' or len(calls) != 1:
+                        out.append(struct(tag, False, 'expected one returning path with one constructor call: %r %s' % (paths[:2], [c[0] for c in calls]), fn2, undecided=True))
+                        continue
+                    nm, a, kw = calls[0]
+                    want_nm = 'phi_2D_to_3D_admix' if K == 2 else ctor[K]
+                    out.append(struct(tag + '.constructor', want_nm in nm and kw.get('deme_ids') is newids and a[0] is phi, '%s(phi, ..., deme_ids=new_pop_ids) (got %s)' % (want_nm, nm), fn2))
+                    nprop = 1 if K == 2 else K - 1
+                    okg = len(a) == 1 + nprop + (K + 1) and all(x is xx for x in a[1 + nprop:])
+                    out.append(struct(tag + '.grids', bool(okg), 'K+1 grids xx', fn2))
+                    for pos in range(nprop):
+                        want = pr[prs.index(pos)] if pos in prs else z3.RealVal(0)
+                        out.append(prove_eq('%s.proportion%d' % (tag, pos + 1), list(paths[0].pc), a[1 + pos], want, fn2))
+        return out
+    return go()
